@@ -11,7 +11,10 @@ must lie inside the reported shape and inside its fiber's active range, and `ite
 exactly what `iterOccupancy` does.  Lazily produced fibers (& | ^ - intersection union prune << project,
 dense co-iterators) are compared with the rank id / active range the operation defines, computed from the
 operands' declared attributes.  Free fibers with their own shape / default / rank id are joined to tensors
-with different ones and must answer with the rank's afterwards.
+with different ones and must answer with the rank's afterwards; fibers that already belong to a tensor are
+given to a second tensor (or copied without their owner), after which the donor's fibers must still answer
+with the donor's ranks' attributes.  Nests of lists given to fromUncompressed may be ragged (lists under
+different parents of different lengths); the expected shape is the per-rank longest list of the raw nest.
 """
 import itertools
 
@@ -21,9 +24,11 @@ from fvmon import gen
 from fvmon.observe import unbox
 
 SPEC = {
-    "anchors": ["fibertree.core.tensor:Tensor._splitGeneric", "fibertree.core.tensor:Tensor.swizzleRanks", "fibertree.core.tensor:Tensor.swapRanks", "fibertree.core.tensor:Tensor.flattenRanks", "fibertree.core.tensor:Tensor.unflattenRanks", "fibertree.core.tensor:Tensor._flattenRankIdsShape", "fibertree.core.tensor:Tensor._unflattenRankIdsShape", "fibertree.core.rank:Rank.getShape", "fibertree.core.rank:Rank.append", "fibertree.core.fiber:Fiber.getShape", "fibertree.core.fiber:Fiber.getActive", "fibertree.core.fiber:Fiber.getDefault", "fibertree.core.fiber:Fiber.project", "fibertree.core.fiber:Fiber.prune", "fibertree.core.iterators:__and__", "fibertree.core.iterators:__or__", "fibertree.core.iterators:__xor__", "fibertree.core.iterators:__sub__", "fibertree.core.iterators:__lshift__", "fibertree.core.iterators:intersection", "fibertree.core.iterators:union", "fibertree.core.iterators:coiterRangeShape"],
+    "anchors": ["fibertree.core.tensor:Tensor._splitGeneric", "fibertree.core.tensor:Tensor.swizzleRanks", "fibertree.core.tensor:Tensor.swapRanks", "fibertree.core.tensor:Tensor.flattenRanks", "fibertree.core.tensor:Tensor.unflattenRanks", "fibertree.core.tensor:Tensor._flattenRankIdsShape", "fibertree.core.tensor:Tensor._unflattenRankIdsShape", "fibertree.core.rank:Rank.getShape", "fibertree.core.rank:Rank.append", "fibertree.core.fiber:Fiber.getShape", "fibertree.core.fiber:Fiber.getActive", "fibertree.core.fiber:Fiber.getDefault", "fibertree.core.fiber:Fiber.project", "fibertree.core.fiber:Fiber.prune", "fibertree.core.iterators:__and__", "fibertree.core.iterators:__or__", "fibertree.core.iterators:__xor__", "fibertree.core.iterators:__sub__", "fibertree.core.iterators:__lshift__", "fibertree.core.iterators:intersection", "fibertree.core.iterators:union", "fibertree.core.iterators:coiterRangeShape", "fibertree.core.tensor:Tensor._calc_shape", "fibertree.core.tensor:Tensor.setRoot", "fibertree.core.fiber:Fiber.copy"],
     "rule": ("cases = (xform) a tensor built by fromFiber / fromUncompressed / fromRandom / makePopulated with "
-             "explicit (different extent per rank) or estimated shape, leaf default 0 or non-zero, a per-rank C/U "
+             "explicit (different extent per rank) or estimated shape (fromUncompressed also on ragged nests of "
+             "depth >= 3 - lists under one parent equally long, lists under different parents not - with and "
+             "without shape=: the calculated shape is the per-rank longest list), leaf default 0 or non-zero, a per-rank C/U "
              "format assignment and a mutability hint, followed by a chain of 1-3 transforms (four split kinds x "
              "depth/rankid x relative/halo, swizzle permutations incl. 3-cycles, swap at every depth, flatten/merge "
              "in five coordinate styles x depth x levels incl. flatten of an already flattened rank, unflatten), "
@@ -31,18 +36,27 @@ SPEC = {
              "(lazy) two or more fibers with different declared shapes / active ranges / rank ids (free, tensor "
              "root, interior fiber, split partition) under & | ^ - intersection union prune << project and the six "
              "dense co-iterators; (join) a free fibertree with its own per-level shapes, default and rank id "
-             "joined to a tensor with different ones, then the tensor's attributes changed; (fiber) free fibers "
-             "from Fiber.fromUncompressed / fromRandom and their splits / flattenings walked for containment. "
+             "joined to a tensor with different ones, then the tensor's attributes changed; (rejoin) a fiber that "
+             "already belongs to a 2-4 rank tensor (its root or an interior fiber) given to a second tensor by "
+             "Tensor.fromFiber / setRoot or copied with copy(preserve_owner=False), after which every fiber of the "
+             "donor must still answer with the donor's ranks' attributes and every fiber of the new tensor with the new "
+             "ranks', also after one tensor's default / rank ids / shape / formats are changed; (fiber) free fibers "
+             "from Fiber.fromUncompressed (rectangular and ragged nests) / fromRandom and their splits / flattenings "
+             "walked for containment. "
              "Non-trivial = xform: the tensor stores >= 2 leaves and at least one step returned and was judged; "
              "lazy: the first operand "
              "is non-empty and the operands' active ranges differ; join: the fiber is non-empty and at least one "
-             "own attribute differs from the rank's; fiber: non-empty. distinct = distinct case."),
+             "own attribute differs from the rank's; rejoin: the donated fiber is non-empty; fiber: non-empty. "
+             "distinct = distinct case."),
     "shards": {"quick": 16, "thorough": 16},
     "min_counts": {"quick": {"evaluations": 1500, "oracle_evals": 40000, "xform_steps": 1500, "lazy_results": 3000,
                              "joined_fibers": 500, "fibers_walked": 8000, "iter_active_compared": 8000,
-                             "shape_authoritative_checked": 800, "format_checked": 2000},
+                             "shape_authoritative_checked": 800, "format_checked": 2000,
+                             "ragged_nests_shape_calculated": 30, "ragged_nests_free_fiber": 4,
+                             "rejoined_fibers": 3000, "rejoin_three_or_more_levels": 100},
                    "thorough": {"evaluations": 30000, "oracle_evals": 800000, "xform_steps": 30000,
-                                "lazy_results": 60000}},
+                                "lazy_results": 60000, "ragged_nests_shape_calculated": 600,
+                                "rejoined_fibers": 60000, "rejoin_three_or_more_levels": 2000}},
     "assumptions": [
         "shape equality is required only when the operand's shape was authoritative (handed to the constructor, "
         "or derived by the algebra from such a shape); estimated shapes: only coordinate containment is judged",
@@ -69,6 +83,13 @@ SPEC = {
         "project is judged on operands with a non-empty active range and affine maps c -> k*c+d, k != 0; the "
         "rank id of a projection is judged only when rank_id is given",
         "a populate destination's stored coordinates are not required to lie in its source-derived active range",
+        "the shape Tensor.fromUncompressed works out from a nest when no shape= is given is authoritative and equals "
+        "the per-rank longest list of the nest (docstring: 'calculated from shape of root'); a free fiber made by "
+        "Fiber.fromUncompressed answers with the length of its own list",
+        "a fiber handed to a second tensor while it belongs to one stays the first tensor's (the second tensor works "
+        "on a copy); the attributes the owner-less copy of copy(preserve_owner=False) answers with are not specified "
+        "(only: no owner at any level, coordinates inside its own reported shape / active range); the shape a "
+        "second tensor reports when none is given is not specified (its fibers must agree with whatever it reports)",
         "lazy results are not consumed (their content is C04/C05/C07's), except populate which is driven to the end",
     ],
 }
@@ -283,6 +304,35 @@ def _legal_steps(rng, st, first):
     return out
 
 
+def _ragged_nest(rng, ext, density, default, vals, lvl=0, n=None):
+    """A nest of lists in which the lists under ONE parent have equal lengths (all that Fiber.fromUncompressed
+    asks for) while lists under different parents need not: every list draws the common length of its own
+    children afresh, around ext[lvl + 1].  (The children of the root are all siblings: rank 1 is never ragged.)"""
+    n = ext[0] if n is None else n
+    if lvl == len(ext) - 1:
+        return [(rng.choice(vals) if rng.random() < density else default) for _ in range(n)]
+    w = max(1, ext[lvl + 1] + rng.choice([-2, -1, 0, 0, 1, 2]))
+    return [_ragged_nest(rng, ext, density, default, vals, lvl + 1, w) for _ in range(n)]
+
+
+def _nest_extents(nest):
+    """Per-level extent of a nest of lists = the longest list of that level (raw data only)."""
+    out, level = [], [nest]
+    while level and isinstance(level[0], list):
+        out.append(max(len(x) for x in level))
+        level = [y for x in level for y in x]
+    return out
+
+
+def _nest_ragged(nest):
+    level = [nest]
+    while level and isinstance(level[0], list):
+        if len({len(x) for x in level}) > 1:
+            return True
+        level = [y for x in level for y in x]
+    return False
+
+
 def _tensor_cfg(rng, depth=None, ctor=None, explicit=None, empty=False, default=None):
     depth = depth or rng.choice([2, 3, 3, 3, 4])
     ext = rng.sample([2, 3, 4, 5, 6], depth)
@@ -299,7 +349,14 @@ def _tensor_cfg(rng, depth=None, ctor=None, explicit=None, empty=False, default=
             cfg["shape"] = [e + rng.choice([0, 0, 1, 3]) for e in ext]
     elif ctor == "fromUncompressed":
         vals = [v for v in gen.VALUES if v != default]
-        cfg["nest"] = gen.rand_nest(rng, ext, 0.0 if empty else 0.6, default, vals)
+        if depth >= 3 and rng.random() < 0.5:
+            # lists under different parents of different lengths: the shape "calculated from the shape of root"
+            # is the per-rank longest list, whichever branch holds it
+            cfg["nest"] = _ragged_nest(rng, ext, 0.0 if empty else 0.6, default, vals)
+            cfg["ragged"] = True
+            ext = _nest_extents(cfg["nest"])
+        else:
+            cfg["nest"] = gen.rand_nest(rng, ext, 0.0 if empty else 0.6, default, vals)
         cfg["shape_given"] = bool(explicit and rng.random() < 0.5)
         cfg["shape"] = [e + (rng.choice([0, 2]) if cfg["shape_given"] else 0) for e in ext]
     elif ctor == "fromRandom":
@@ -488,6 +545,26 @@ def _join_case(rng):
     return case
 
 
+def _rejoin_case(rng):
+    """A fiber that ALREADY belongs to a tensor (its root or an interior fiber) handed to a second tensor
+    (Tensor.fromFiber / setRoot) or copied without its owner: the donor's fibers stay members of the donor."""
+    depth = rng.choice([2, 3, 3, 4, 4])
+    ext = [rng.randint(2, 4) for _ in range(depth)]
+    own_default = rng.choice([0, 3])
+    default = rng.choice([0, 8, own_default])
+    vals = [v for v in gen.VALUES if v not in (own_default, default)]
+    level = min(rng.choice([0, 0, 0, 1, 1, 2]), depth - 1)
+    sub = depth - level
+    return {"kind": "rejoin", "spec": gen.rand_tree_spec(rng, ext, 0.8, 0.0, own_default, vals),
+            "own_default": own_default, "ids": gen.rank_ids_for(depth, "MKNP"),
+            "shape": [e + rng.choice([0, 1, 3]) for e in ext] if rng.random() < 0.6 else None, "default": default,
+            "fmts": [rng.choice("CCU") for _ in range(depth)], "level": level, "pick": rng.randint(0, 5),
+            "via": rng.choice(["fromFiber", "setRoot", "copy"]), "ids2": gen.rank_ids_for(sub, "ABCD"),
+            "shape2": [e + rng.choice([0, 2, 6]) for e in ext[level:]] if rng.random() < 0.5 else None,
+            "default2": rng.choice([0, 8, 11]), "fmts2": [rng.choice("CU") for _ in range(sub)],
+            "then": rng.choice([None, "setDefault", "setRankIds", "setShape", "setFormat", "new.setDefault"])}
+
+
 def _fiber_case(rng):
     depth = rng.choice([1, 2, 2, 3])
     ext = [rng.randint(2, 6) for _ in range(depth)]
@@ -496,7 +573,11 @@ def _fiber_case(rng):
     case = {"kind": "fiber", "ctor": ctor, "default": default, "ext": ext}
     vals = [v for v in gen.VALUES if v != default]
     if ctor == "fromUncompressed":
-        case["nest"] = gen.rand_nest(rng, ext, rng.choice([0.0, 0.5, 0.8]), default, vals)
+        if depth >= 3 and rng.random() < 0.8:
+            case["nest"] = _ragged_nest(rng, ext, rng.choice([0.5, 0.8]), default, vals)
+            case["ragged"] = True
+        else:
+            case["nest"] = gen.rand_nest(rng, ext, rng.choice([0.0, 0.5, 0.8]), default, vals)
     elif ctor == "fromRandom":
         case["density"] = [1.0] * (depth - 1) + [rng.choice([0.4, 0.8])] if default else [rng.choice([0.5, 0.9]) for _ in ext]
         case["seed"] = rng.randint(0, 10 ** 6)
@@ -530,6 +611,8 @@ def generate(rng, tier, shard, nshards, mon):
         yield _join_case(rng)
     for _ in range(800 * scale // nshards):
         yield _fiber_case(rng)
+    for _ in range(600 * scale // nshards):
+        yield _rejoin_case(rng)
 
 
 # ------------------------------------------------------------------------------------------
@@ -760,6 +843,9 @@ def _run_xform(case, mon):
         return
     st = st_new(cfg["ids"], cfg["shape"], cfg["default"], cfg["fmts"], cfg["mutable"])
     key = f"Tensor.{cfg['ctor']}"
+    if cfg.get("ragged") and _nest_ragged(cfg["nest"]):
+        key += "[ragged-nest]"
+        mon.count("ragged_nests" if cfg.get("shape_given") else "ragged_nests_shape_calculated")
     good = _check_attrs(mon, key, t, st)
     try:
         good &= _check_tensor_fibers(mon, key, t, st)
@@ -970,6 +1056,50 @@ def _run_lazy(case, mon):
 # ------------------------------------------------------------------------------------------
 # join cases
 # ------------------------------------------------------------------------------------------
+def _verify_members(mon, key, t, root, ids, shape, d, own_shape=None, own_d=None, fmts=None, counter="joined_fibers"):
+    """Every fiber below `root` (the root fiber of tensor `t`) answers with its rank's attributes: owner, rank id,
+    shape (the one given to the tensor, else the one the tensor reports), active range (0, shape), default (the
+    tensor's at the leaf level, Fiber above), format; coordinates inside shape / active range.
+    ids / shape / d / fmts are the values handed to the tensor.  -> some own attribute differed from the rank's"""
+    differs = False
+    reported = _call(mon, f"{key}:Tensor.getShape", t.getShape)
+    if shape:
+        mon.check(t.getShape(authoritative=True) == list(shape), f"{key}:tensor-shape",
+                  f"{key}: tensor reports {t.getShape(authoritative=True)!r}, given {shape!r}")
+    for lvl, fb in _walk(root):
+        mon.count(counter)
+        if lvl >= len(ids):
+            mon.violation(f"{key}:tree-deeper-than-ranks", f"{key}: fiber at level {lvl} but {len(ids)} ranks")
+            return differs
+        leaf = lvl == len(ids) - 1
+        mon.check(fb.getOwner() is t.ranks[lvl], f"{key}:owner", f"{key}: fiber at level {lvl} is not owned by its rank")
+        rid = fb.getRankAttrs().getId()
+        mon.check(rid == ids[lvl], f"{key}:rank-id", f"{key}: fiber at level {lvl} answers rank id {rid!r}, rank is {ids[lvl]!r}")
+        want = shape[lvl] if shape else reported[lvl]
+        got = _call(mon, f"{key}:getShape", fb.getShape, all_ranks=False)
+        own = own_shape[lvl] if own_shape is not None else None
+        mon.check(got == want, f"{key}:shape", f"{key}: fiber at level {lvl} (own shape {own!r}) answers "
+                                              f"shape {got!r}, rank's is {want!r}")
+        if own not in (None, want):
+            differs = True
+        ar = _call(mon, f"{key}:getActive", fb.getActive)
+        mon.check(tuple(ar) == (0, want), f"{key}:active-range", f"{key}: fiber at level {lvl} answers active range {ar!r}, "
+                                                                  f"rank shape is {want!r}")
+        gd = _call(mon, f"{key}:getDefault", fb.getDefault)
+        if leaf:
+            mon.check(isinstance(gd, Payload) and gd.value == d, f"{key}:leaf-default",
+                      f"{key}: leaf fiber (own default {own_d!r}) answers default {gd!r}, rank's is {d!r}")
+        else:
+            mon.check(unbox(gd) is Fiber, f"{key}:interior-default", f"{key}: interior fiber answers default {gd!r}")
+        if fmts is not None:
+            mon.count("format_checked")
+            fm = fb.getRankAttrs().getFormat()
+            mon.check(fm == fmts[lvl], f"{key}:format", f"{key}: fiber at level {lvl} answers format {fm!r}, "
+                                                        f"rank {ids[lvl]!r} was set to {fmts[lvl]!r}")
+    _check_containment(mon, key, root, reported, True, estimated=not shape)
+    return differs
+
+
 def _run_join(case, mon):
     own_d = case["own_default"]
     ids, shape, d = case["ids"], case["shape"], case["default"]
@@ -991,32 +1121,7 @@ def _run_join(case, mon):
 
     def verify(key, ids, shape, d):
         nonlocal differs
-        reported = _call(mon, f"{key}:Tensor.getShape", t.getShape)
-        if shape:
-            mon.check(t.getShape(authoritative=True) == list(shape), f"{key}:tensor-shape",
-                      f"{key}: tensor reports {t.getShape(authoritative=True)!r}, given {shape!r}")
-        for lvl, fb in _walk(f):
-            mon.count("joined_fibers")
-            leaf = lvl == len(ids) - 1
-            mon.check(fb.getOwner() is t.ranks[lvl], f"{key}:owner", f"{key}: fiber at level {lvl} is not owned by its rank")
-            rid = fb.getRankAttrs().getId()
-            mon.check(rid == ids[lvl], f"{key}:rank-id", f"{key}: fiber at level {lvl} answers rank id {rid!r}, rank is {ids[lvl]!r}")
-            want = shape[lvl] if shape else reported[lvl]
-            got = _call(mon, f"{key}:getShape", fb.getShape, all_ranks=False)
-            mon.check(got == want, f"{key}:shape", f"{key}: fiber at level {lvl} (own shape {case['own_shape'][lvl]!r}) answers "
-                                                  f"shape {got!r}, rank's is {want!r}")
-            if case["own_shape"][lvl] not in (None, want):
-                differs = True
-            ar = _call(mon, f"{key}:getActive", fb.getActive)
-            mon.check(tuple(ar) == (0, want), f"{key}:active-range", f"{key}: fiber at level {lvl} answers active range {ar!r}, "
-                                                                      f"rank shape is {want!r}")
-            gd = _call(mon, f"{key}:getDefault", fb.getDefault)
-            if leaf:
-                mon.check(isinstance(gd, Payload) and gd.value == d, f"{key}:leaf-default",
-                          f"{key}: leaf fiber (own default {own_d!r}) answers default {gd!r}, rank's is {d!r}")
-            else:
-                mon.check(unbox(gd) is Fiber, f"{key}:interior-default", f"{key}: interior fiber answers default {gd!r}")
-        _check_containment(mon, key, f, reported, True, estimated=not shape)
+        differs |= _verify_members(mon, key, t, f, ids, shape, d, own_shape=case["own_shape"], own_d=own_d)
     try:
         if t.getRoot() is not f:
             mon.violation(f"{key}:root-not-the-fiber", f"{key}: an unowned fiber was copied instead of joined")
@@ -1069,6 +1174,9 @@ def _run_fiber(case, mon):
     ctor = case["ctor"]
     key = f"Fiber.{ctor}"
     est = ctor in ("fromRandom", "ctor")        # no declared shape: every answer is an estimate
+    if case.get("ragged") and _nest_ragged(case["nest"]):
+        key += "[ragged-nest]"
+        mon.count("ragged_nests_free_fiber")
     try:
         if ctor == "fromUncompressed":
             f = _call(mon, key, Fiber.fromUncompressed, case["nest"], default=d)
@@ -1079,10 +1187,16 @@ def _run_fiber(case, mon):
         _check_containment(mon, key, f, None, True, estimated=est)
         _check_all_ranks(mon, f, est)
         if ctor == "fromUncompressed" and f.coords:
-            for lvl, fb in _walk(f):
+            # every fiber answers with the length of the list it was made from (for a ragged nest: its own list's)
+            stack = [(0, f, case["nest"])]
+            while stack:
+                lvl, fb, lst = stack.pop()
                 got = fb.getShape(all_ranks=False)
-                mon.check(got == case["ext"][lvl], f"{key}:shape", f"{key}: fiber at level {lvl} answers shape {got!r}, "
-                                                                  f"the nest has {case['ext'][lvl]!r}")
+                mon.check(got == len(lst), f"{key}:shape", f"{key}: fiber at level {lvl} answers shape {got!r}, "
+                                                          f"its list has {len(lst)!r} entries")
+                for c, pl in zip(fb.coords, fb.payloads):
+                    if isinstance(pl, Fiber):
+                        stack.append((lvl + 1, pl, lst[c]))
         op = case["op"]
         if op and f.coords:
             name, p = op
@@ -1113,6 +1227,88 @@ def _run_fiber(case, mon):
     mon.state(("fiber", ctor, str(case["op"] and case["op"][0]), len(f.coords)))
 
 
+# ------------------------------------------------------------------------------------------
+# re-join cases: a fiber that already belongs to a tensor is given to a second one
+# ------------------------------------------------------------------------------------------
+def _run_rejoin(case, mon):
+    ids, shape, d, fmts = list(case["ids"]), case["shape"], case["default"], list(case["fmts"])
+    via, level = case["via"], case["level"]
+    key = f"rejoin[{via}]"
+    try:
+        donor = _call(mon, "join[fromFiber]", gen.tensor_from_spec, case["spec"], ids, shape=shape, default=d,
+                      fmts=fmts, fiber_default=case["own_default"])
+    except _Raised:
+        return
+    root = donor.getRoot()
+    at_level = [fb for lvl, fb in _walk(root) if lvl == level]
+    if not at_level:
+        return
+    src = at_level[case["pick"] % len(at_level)]
+    sub = max(lvl for lvl, _ in _walk(src)) + 1
+    ids2, shape2, d2, fmts2 = list(case["ids2"]), case["shape2"], case["default2"], list(case["fmts2"])
+    new = None
+    try:
+        _verify_members(mon, "join[fromFiber]", donor, root, ids, shape, d, fmts=fmts)
+        if via == "copy":
+            cp = _call(mon, key, src.copy, preserve_owner=False)
+            if mon.check(isinstance(cp, Fiber) and cp is not src, f"{key}:copy:not-a-new-fiber",
+                         f"{key}: copy(preserve_owner=False) returned {type(cp).__name__}"):
+                kept = [lvl for lvl, fb in _walk(cp) if fb.getOwner() is not None]
+                mon.check(not kept, f"{key}:copy:owner-kept", f"{key}: the copy's fibers at levels {kept[:4]} have an owner")
+                _check_containment(mon, f"{key}:copy", cp, None, True, estimated=not shape)
+        else:
+            if via == "fromFiber":
+                new = _call(mon, key, Tensor.fromFiber, rank_ids=list(ids2), fiber=src,
+                            shape=list(shape2) if shape2 else None, default=d2)
+            else:
+                new = _call(mon, key, Tensor, rank_ids=list(ids2), shape=list(shape2) if shape2 else None, default=d2)
+                _call(mon, key, new.setRoot, src)
+                if shape2:
+                    new.setShape(list(shape2))
+            for r, fm in zip(ids2, fmts2):
+                new.setFormat(r, fm)
+            mon.check(new.getRoot() is not src, f"{key}:new:shares-the-donor's-fiber",
+                      f"{key}: the fiber is the root of two tensors")
+
+        def both(k, ids, shape, d, fmts, ids2, d2):
+            # the donor first: its fibers (the donated ones included) are still its ranks' members
+            mon.check(donor.getRoot() is root, f"{k}:donor:root-replaced", f"{k}: the donor's root fiber was replaced")
+            _verify_members(mon, f"{k}:donor", donor, root, ids, shape, d, fmts=fmts, counter="rejoined_fibers")
+            if new is not None:
+                _verify_members(mon, f"{k}:new", new, new.getRoot(), ids2, shape2, d2, fmts=fmts2,
+                                counter="rejoined_fibers_new")
+        raw0 = mon.counters["violations_raw"]
+        both(key, ids, shape, d, fmts, ids2, d2)
+        # never judge a later step on top of a state already found wrong
+        then = case["then"] if mon.counters["violations_raw"] == raw0 else None
+        if then == "setDefault":
+            donor.setDefault(d + 5)
+            both(f"{key}+setDefault", ids, shape, d + 5, fmts, ids2, d2)
+        elif then == "setRankIds":
+            ids = [r + "2" for r in ids]
+            donor.setRankIds(ids)
+            both(f"{key}+setRankIds", ids, shape, d, fmts, ids2, d2)
+        elif then == "setShape" and shape:
+            shape = [x + 2 for x in shape]
+            donor.setShape(shape)
+            both(f"{key}+setShape", ids, shape, d, fmts, ids2, d2)
+        elif then == "setFormat":
+            fmts = ["U" if fm == "C" else "C" for fm in fmts]
+            for r, fm in zip(ids, fmts):
+                donor.setFormat(r, fm)
+            both(f"{key}+setFormat", ids, shape, d, fmts, ids2, d2)
+        elif then == "new.setDefault" and new is not None:
+            new.setDefault(d2 + 5)
+            both(f"{key}+new.setDefault", ids, shape, d, fmts, ids2, d2 + 5)
+    except _Raised:
+        return
+    if src.coords:
+        mon.nontrivial()
+        if sub >= 3:
+            mon.count("rejoin_three_or_more_levels")
+    mon.state(("rejoin", via, level, sub, str(shape), str(shape2), d, d2, case["then"]))
+
+
 def run_case(case, mon):
     kind = case["kind"]
     if kind == "xform":
@@ -1123,3 +1319,5 @@ def run_case(case, mon):
         _run_join(case, mon)
     elif kind == "fiber":
         _run_fiber(case, mon)
+    elif kind == "rejoin":
+        _run_rejoin(case, mon)
